@@ -7,6 +7,8 @@ from vf.ref import txref
 
 LEN_BOUNDARY = [0, 1, 2, 74, 75, 76, 77, 251, 252, 253, 254, 255, 256, 257, 519, 520, 521]
 LEN_BIG = [65534, 65535, 65536, 65537, 70000]
+# between the element-size limit and the 2-byte CompactSize ceiling: script-size (10000) and 2^15 neighbourhoods
+LEN_MID = [3000, 9999, 10000, 10001, 32767, 32768]
 U32 = [0, 1, 2, 0x7FFFFFFF, 0x80000000, 0xFFFFFFFE, 0xFFFFFFFF, 499999999, 500000000]
 VALUES = [0, 1, 546, 2100000000000000, 2**63 - 1, 2**63, 2**64 - 1, 5000000000]
 SEQS = [0, 1, 0xFFFFFFFE, 0xFFFFFFFF, 0xFFFFFFFD, 0x80000000]
@@ -24,11 +26,13 @@ def expand(spec: str) -> bytes:
 
 @st.composite
 def blob(draw, big=False, min_len=0, small_max=80):
-    kind = draw(st.sampled_from(["small", "small", "small", "boundary", "big" if big else "boundary"]))
+    kind = draw(st.sampled_from(["small", "small", "small", "small", "small", "boundary", "boundary", "boundary", "mid", "big" if big else "boundary"]))
     if kind == "small":
         return draw(st.binary(min_size=min_len, max_size=small_max)).hex()
     if kind == "boundary":
         n = max(min_len, draw(st.sampled_from(LEN_BOUNDARY)))
+    elif kind == "mid":
+        n = draw(st.sampled_from(LEN_MID))
     else:
         n = draw(st.sampled_from(LEN_BIG))
     seed = draw(st.binary(min_size=1, max_size=4))
@@ -159,6 +163,8 @@ def features(tx):
         f.append("script>=65536")
     if any(n >= 253 for n in sl):
         f.append("script>=253")
+    if any(3000 <= n < 65534 for n in sl):
+        f.append("script-3000..65533")
     if tx["segwit"]:
         f.append("segwit")
         stacks = [i["witness"] for i in tx["ins"]]
@@ -173,6 +179,8 @@ def features(tx):
             f.append("wit-item>=253")
         if any(n >= 65536 for n in items):
             f.append("wit-item>=65536")
+        if any(3000 <= n < 65534 for n in items):
+            f.append("wit-item-3000..65533")
         if any(i["sequence"] != 0xFFFFFFFF for i in tx["ins"]):
             f.append("segwit-nonfinal-seq")
     return f
